@@ -102,3 +102,22 @@ pub fn fresh_dir(workdir: &str, name: &str) -> String {
     std::fs::create_dir_all(&d).unwrap();
     d
 }
+
+pub fn fnv64(data: &[u8]) -> u64 {
+    let mut h: u64 = 0xcbf29ce484222325;
+    for b in data {
+        h ^= *b as u64;
+        h = h.wrapping_mul(0x100000001b3);
+    }
+    h
+}
+
+/// like esc, but long byte strings are printed as {L<len>:<fnv64>} so that a corrupted
+/// load cannot blow the output up
+pub fn escv(b: &[u8]) -> String {
+    if b.len() > 2048 {
+        format!("{{L{}:{:016x}}}", b.len(), fnv64(b))
+    } else {
+        esc(b)
+    }
+}
